@@ -32,7 +32,7 @@ TNext ==
     /\ l' = l + 1
     \* hp: the execution ran with help=1 (a lone thread's wait for a lock held inside library code is bridged by the scheduler),
     \* the precondition of the "blocked merely by readers" verdict
-    /\ hp' = IF Tr[l].k = "reset" THEN ("help" \in DOMAIN Tr[l].p /\ Tr[l].p.help = 1) ELSE hp
+    /\ hp' = IF Tr[l].k = "reset" THEN ("help" \in DOMAIN Tr[l].p /\ Tr[l].p.help = 1 /\ Tr[l].p.mk \in {2, 3}) ELSE hp   \* (plain mutexes: readers exclude each other)
     /\ LET e == Tr[l]
            t == e.t IN
        CASE e.k = "reset" ->
